@@ -18,6 +18,13 @@ Two layers, both decided on the optimized LLVM IR of the current tree:
           applied to the concatenated message.  Equality of every output byte
           is syntactic after hash-consing or decided by z3 (QF_UFBV).
 
+ step     (props/C17_step.py) the same comparison started from an ARBITRARY
+          mid-stream context (chaining value, buffer, byte counter symbolic):
+          one `update`, or the finalisation, against the one-step form of the
+          standard's rule.  With layer 1 as the base case this decides, by
+          induction over the stream, messages of any length and any number of
+          update calls, and every counter value (length fields, BLAKE2s t[0]/t[1]).
+
 The seam between the layers (hook == "h := F(h, block), nothing else
 changes") is exactly the statement layer 2 proves, frame condition included."""
 import hashlib, json, os, re, sys, time, traceback
@@ -29,6 +36,7 @@ from engines.llsym.smt import BVEmitter, run_solver, parse_model
 from vlib.common import Obligation, finish, log, NCPU, REPO
 from vlib.par import pmap
 from . import hashspec as H
+from . import C17_step as STEP
 from .lhelp import sym_run, rng, MachineryError
 
 # ---------------------------------------------------------------------------------------------
@@ -226,6 +234,7 @@ def all_drivers():
     for x in XOF:
         ds += xof_drivers(*x)
     ds += blake2s_drivers()
+    ds += STEP.step_drivers(ALL_TAGS)
     return ds
 
 
@@ -1254,21 +1263,23 @@ def run(tier, only=None):
     t0 = time.time()
     thorough = tier == "thorough"
     tags = ALL_TAGS if thorough else QUICK_TAGS
-    do_l1 = do_l2 = True
+    do_l1 = do_l2 = do_step = True
     aspects = None
     if only:
-        # --only accepts hash tags, "layer1"/"layer2", and substrings of group names (e.g. keyed_reset)
+        # --only accepts hash tags, "layer1"/"layer2"/"step", and substrings of group names (e.g. keyed_reset)
         sel = [o for o in only if o in ALL_TAGS]
         if sel:
             tags = sel
-        if "layer2" in only and "layer1" not in only:
-            do_l1 = False
-        if "layer1" in only and "layer2" not in only:
-            do_l2 = False
-        aspects = [o for o in only if o not in ALL_TAGS and o not in ("layer1", "layer2")] or None
+        layers = [o for o in only if o in ("layer1", "layer2", "step")]
+        if layers:
+            do_l1, do_l2, do_step = "layer1" in layers, "layer2" in layers, "step" in layers
+        aspects = [o for o in only if o not in ALL_TAGS and o not in ("layer1", "layer2", "step")] or None
+        if aspects and not layers:
+            do_step = False       # a bare substring selects call-pattern groups, as before
     merr = None
     try:
         nref = H.selftest()
+        nref_step = H.selftest_step()
     except AssertionError as e:
         return finish("C17", tier, [], t0, machinery_error="hashspec self-test failed: %r" % (e,))
     try:
@@ -1322,14 +1333,24 @@ def run(tier, only=None):
         for g in groups:
             items.append(("l1", g))
         nshapes = sum(len(g[2]) for g in groups)
-        log("[C17] %d compression functions, %d call-pattern groups, %d shapes" %
-            (sum(1 for i in items if i[0] == "l2"), len(groups), nshapes))
+        sgroups = []
+        for tag in (tags if do_step else []):
+            for g in STEP.groups_for(tag, tier):
+                if aspects and not any(a in g[0] for a in aspects):
+                    continue
+                sgroups.append(g)
+        for g in sgroups:
+            items.append(("step", g))
+        log("[C17] %d compression functions, %d call-pattern groups, %d shapes, %d step groups, %d step cases" %
+            (sum(1 for i in items if i[0] == "l2"), len(groups), nshapes, len(sgroups), sum(len(g[3]) for g in sgroups)))
 
         def work(it):
             if it[0] == "l2":
                 return compress_job(ctx, it[1], it[2], l2_timeout, 8 if it[1] == "keccak" else 3, index=it[3], budget=l2_budget)
             if it[0] == "vec":
                 return vector_job(ctx, it[1])
+            if it[0] == "step":
+                return STEP.decide_group(ctx, it[1][0], it[1][1], it[1][2], it[1][3], l1_timeout, 1 if not thorough else 4)
             name, bounds, shapes = it[1]
             return decide_group(ctx, name, bounds, shapes, l1_timeout, 1 if not thorough else 4)
         res = pmap(work, items, nproc=NCPU, timeout=1500 if not thorough else 2300)
@@ -1338,13 +1359,21 @@ def run(tier, only=None):
         refmis = {}
         l2_viol = set()
         stats = dict(shapes=0, syntactic=0, solver=0, l1_solver_s=0.0)
+        sstats = dict(groups=len(sgroups), cases=0, syntactic=0, solver=0, solver_s=0.0)
         l2_info = []
         for it, (st, val) in zip(items, res):
             if st == "ok":
                 ob = val
                 obs.append(ob)
                 info = getattr(ob, "c17", {})
-                if it[0] == "l1":
+                if it[0] == "step":
+                    for fn in info.get("hooked", []):
+                        hooked.setdefault(fn, set()).add(info["fam"])
+                    sstats["cases"] += info.get("nshapes", 0)
+                    sstats["syntactic"] += info.get("nsyn", 0)
+                    sstats["solver"] += info.get("nsol", 0)
+                    sstats["solver_s"] += info.get("solver_s", 0.0)
+                elif it[0] == "l1":
                     for fn in info.get("hooked", []):
                         hooked.setdefault(fn, set()).add(info["fam"])
                     stats["shapes"] += info.get("nshapes", 0)
@@ -1362,7 +1391,7 @@ def run(tier, only=None):
                                         **{k: v for k, v in info.get("sweep", {}).items()
                                            if k in ("lemmas", "syntactic", "queries", "solver_s", "maxlemma", "nomatch", "dropped", "cuts", "iterations")}))
             else:
-                nm = it[1][0] if it[0] == "l1" else "%s:%s" % (it[0], it[1] if it[0] != "vec" else "vectors")
+                nm = it[1][0] if it[0] in ("l1", "step") else "%s:%s" % (it[0], it[1] if it[0] != "vec" else "vectors")
                 o = Obligation(str(nm), "L")
                 o.unknown("%s: %s" % (st, str(val).split("\n")[0][:400]))
                 obs.append(o)
@@ -1388,14 +1417,39 @@ def run(tier, only=None):
                     obs.append(o)
     except MachineryError as e:
         merr = str(e)[-600:]
-        stats, l2_info, nshapes = {}, [], 0
+        stats, sstats, l2_info, nshapes = {}, {}, [], 0
     except Exception as e:   # build/driver problems are machinery problems, never violations
         merr = "%s: %s" % (type(e).__name__, str(e)[-500:])
         log(traceback.format_exc())
-        stats, l2_info, nshapes = {}, [], 0
+        stats, sstats, l2_info, nshapes = {}, {}, [], 0
     finally:
         built.close()
     funcs = sorted(set(fn for o in obs for fn in o.functions))
+    # what the inductive-step obligations (props/C17_step.py) change in the claim
+    step_bounds = {}
+    step_assume = ["longer messages iterate the same full-block path (lengths beyond 2*block+9 not enumerated)"]
+    long_out = ["message lengths > 2*block+9; more than two input split points; more than three extract calls",
+                "SHA-2 total length >= 2^61 bytes (counter wrap), BLAKE2s counter beyond 2^32 in layer 1 (layer 2 covers all counters)"]
+    if do_step:
+        step_bounds = {"step": "update / finalisation from an arbitrary context: chaining value (or Keccak state), every buffer byte, "
+                       "every input byte symbolic; byte counter = block*q + fill with q symbolic and EVERY fill level enumerated "
+                       "(SHA-2 finalisation: counter < 2^61 resp. 2^125 bytes, the standard's domain; SHA-2 update and BLAKE2s: every "
+                       "counter value, BLAKE2s invalid marker !0 excluded); input lengths per fill level: 0, 1, room-1, room, room+1, "
+                       "room+block, room+block+1" + ("" if not thorough else " and six more up to 2*block+1") +
+                       "; BLAKE2s output lengths " + ("1..32" if thorough else "1, 20, 32") +
+                       "; SHAKE squeezing from every block position incl. rate"}
+        step_assume = ["induction over the stream: layer 1 establishes the abstract state (props/hashspec.py, one-step forms) for a fresh "
+                       "context, the step obligations preserve it for every context and every enumerated input length class; the "
+                       "composition law of the one-step forms (step(step(s,a),b) = step(s,a||b), final(step(init,m)) = digest(m)) is "
+                       "checked against hashlib on random splits each run (%d comparisons), not proved" % nref_step,
+                       "step obligations enumerate input lengths up to 2*block+8 per call; a longer single update call repeats the "
+                       "same whole-block loop iteration (loop not unrolled symbolically in its trip count)"]
+        long_out = ["a single update call longer than 2*block+8 bytes from a mid-stream context (the same loop body iterates); "
+                    "more than three extract calls from a FRESH context are covered by the extract step, input splits by the update step",
+                    "SHA-2 finalisation with a byte counter >= 2^61 (SHA-384/512 family: 2^125): outside the standards' domain; "
+                    "BLAKE2s streams of 2^64-1 bytes or more",
+                    "finalize / finalize_reset / finalize_write / hash aliases from a mid-stream context (layer 1 shows them equal "
+                    "from fresh contexts; the step obligations use digest(), Blake2s::finalize_write, finalize_reset_write)"]
     return finish(
         "C17", tier, obs, t0,
         functions_encoded=funcs + ["drivers: new/update/digest/finalize*/reset/clone/hash of " + ", ".join(tags)],
@@ -1408,21 +1462,18 @@ def run(tier, only=None):
                 "0,1,63,64,65,127,128,129" if thorough else "0,64,65,128", "0..=32" if thorough else "0,1,16,31,32"),
             "compression": "all state/block/counter/flag values (layer 2, unbounded in data)",
             "configuration": "default features, x86_64 without avx2 (BLAKE2s SSE2 path), opt-level 3",
+            **step_bounds,
         },
         stubs={"uf sha2c32 / sha2c64 / keccakf / blake2sF (layer 1)": "layer-2 obligations compress:* of this check (same run, same IR functions; seam checked by name)"},
         assumptions=["LLVM IR semantics as implemented in engines/llsym (validated natively each run: every call shape on one sampled message, compression functions on 12 inputs, repository known-answer vectors)",
-                     "hashspec.py transcriptions of FIPS 180-4 / FIPS 202 / RFC 7693 (validated against hashlib: %d comparisons this run)" % nref,
-                     "longer messages iterate the same full-block path (lengths beyond 2*block+9 not enumerated)"],
-        outside=["BLAKE2s AVX2 path (needs -C target-feature=+avx2) and the portable non-x86 path: not compiled in the default build",
-                 "message lengths > 2*block+9; more than two input split points; more than three extract calls",
-                 "SHA-2 total length >= 2^61 bytes (counter wrap), BLAKE2s counter beyond 2^32 in layer 1 (layer 2 covers all counters)",
-                 "use of a BLAKE2s context after finalize without reset (documented as invalid)",
-                 "quick tier: sha224, sha384, sha512/224, sha512/256, sha3-224/384/512, shake256 (thorough only)"] if not thorough else
-                ["BLAKE2s AVX2 path (needs -C target-feature=+avx2) and the portable non-x86 path: not compiled in the default build",
-                 "message lengths > 2*block+9; more than two input split points; more than three extract calls",
-                 "SHA-2 total length >= 2^61 bytes (counter wrap), BLAKE2s counter beyond 2^32 in layer 1 (layer 2 covers all counters)",
-                 "use of a BLAKE2s context after finalize without reset (documented as invalid)"],
+                     "hashspec.py transcriptions of FIPS 180-4 / FIPS 202 / RFC 7693 (validated against hashlib: %d comparisons this run)" % nref]
+        + step_assume,
+        outside=["BLAKE2s AVX2 path (needs -C target-feature=+avx2) and the portable non-x86 path: not compiled in the default build"]
+        + long_out +
+                ["use of a BLAKE2s context after finalize without reset (documented as invalid)"] +
+                (["quick tier: sha224, sha384, sha512/224, sha512/256, sha3-224/384/512, shake256 (thorough only)"] if not thorough else []),
         extra={"layer1": {k: (round(v, 1) if isinstance(v, float) else v) for k, v in stats.items()},
+               "step": {k: (round(v, 1) if isinstance(v, float) else v) for k, v in sstats.items()},
                "layer2": l2_info, "build_seconds": round(built.secs, 1)},
         machinery_error=merr)
 
@@ -1453,6 +1504,10 @@ def replay(path):
                 ref = H.blake2s_F(h, blk, env["ctr"], env["last"])
             still = list(nat) != list(ref)
             print("replay %s: native = %s\nstandard = %s" % (model["key"], [hex(x) for x in nat], [hex(x) for x in ref]))
+            print("VIOLATION property=C17 replay=%s" % path if still else "replay: does not reproduce on the current tree")
+            return 1 if still else 0
+        if ".step." in str(model.get("key", "")):
+            still = STEP.replay(built, model)
             print("VIOLATION property=C17 replay=%s" % path if still else "replay: does not reproduce on the current tree")
             return 1 if still else 0
         drv = model["driver"]
